@@ -232,7 +232,11 @@ AllowedInvSizes(c) ==
                  c.layers[i].g * c.layers[i].a}
            ELSE {c.layers[i].a * c.layers[i].a, c.layers[i].g * c.layers[i].g,
                  c.layers[i].a, c.layers[i].g} : i \in 1..NL(c)}
+\* the property's clause: under symmetry-aware mode a symmetric n x n matrix
+\* travels as n(n+1)/2 elements (second-order data is symmetric only for the
+\* inverse method; other methods are constrained by Conforms only)
 InvBcastSizes(c, P) ==
+    (c.sym /\ c.method = "inverse") =>
     \A r \in World(c) : \A j \in DOMAIN P[r + 1] :
         (P[r + 1][j].kind = "broadcast" /\ P[r + 1][j].dt = "i")
             => P[r + 1][j].numel \in AllowedInvSizes(c)
